@@ -69,7 +69,7 @@ type faultCase struct {
 func c01(args []string) {
 	c := chk.New("C01", "fault_enumeration", args)
 	c.Build(false)
-	c.Rule("directed topologies (single task; 2-output task feeding two consumers; 6 parallel tasks with fan-in; task with additional files; task whose declared output is a directory of three files; task with a streaming output beside two file outputs) x output-path shapes (plain, nested new directories, ../, absolute) x {command, Go function}; faults: every command failure mode on tasks in turn (exit non-zero before/mid/after writing, SIGKILL, SIGSEGV, shell killed, output omitted / misplaced), the process group killed by the command itself before / in the middle of / after writing, the group killed at hook crash points of every task (enumerated from the event log of a crash-free dry run), kills at logical instants (k-th line of the command trace); oracle after every terminated run: a file at a declared final path implies a successful end event of that task and the complete reference bytes; commands stat their own final path while running (must not exist); every other new file lies inside a _scipipe_tmp.* directory; commands whose output is written by a helper that outlives them (no failure at all: nothing may be visible before the helper is done); Go-function tasks also fail by panicking (after half / all of the output is written); commands that are scripts of several lines in which a line after the tool's successful end fails; six tasks failing at once with long error reports on a slowly read error stream (the failures overlap in time). distinct_nontrivial = distinct (topology, path shape, kind, fault, target) whose fault really fired (kill observed / failing command ran)")
+	c.Rule("directed topologies (single task; 2-output task feeding two consumers; 6 parallel tasks with fan-in; task with additional files; task whose declared output is a directory of three files; task with a streaming output beside two file outputs) x output-path shapes (plain, nested new directories, ../, absolute) x {command, Go function}; faults: every command failure mode on tasks in turn (exit non-zero before/mid/after writing, SIGKILL, SIGSEGV, shell killed, output omitted / misplaced), the process group killed by the command itself before / in the middle of / after writing, the group killed at hook crash points of every task (enumerated from the event log of a crash-free dry run), kills at logical instants (k-th line of the command trace); oracle after every terminated run: a file at a declared final path implies a successful end event of that task and the complete reference bytes; commands stat their own final path while running (must not exist); every other new file lies inside a _scipipe_tmp.* directory; commands whose output is written by a helper that outlives them (no failure at all: nothing may be visible before the helper is done); Go-function tasks also fail by panicking (after half / all of the output is written); commands that are scripts of several lines in which a line after the tool's successful end fails; commands that run two tools side by side ('tool1 & tool2; wait', three spellings, second tool also failing): both tools stat the final paths of both outputs while they run; six tasks failing at once with long error reports on a slowly read error stream (the failures overlap in time). distinct_nontrivial = distinct (topology, path shape, kind, fault, target) whose fault really fired (kill observed / failing command ran)")
 	c.Assume("working directory, ../ targets and absolute targets are on one file system", "destination directories of ../ and absolute outputs exist before the run (as the property allows)", "<path>.audit.json files and empty directories are not judged")
 	rng := c.Rand("c01")
 	var tcs []topoCase
